@@ -638,3 +638,40 @@ def tw_matrix(ctx, n_quick, n_thorough, salt=0, jobs=12):
                                                  "v2_only_configurations": n_v2, "instrumented_machine_runs": n_twg,
                                                  "suspended_at_cmpOk_gap": susp[:5], "suspended_runs": len(susp)}
     return agg
+
+
+def stateless_matrix(ctx, n_quick, n_thorough, salt=0, jobs=12):
+    """STATELESS models (no SetState: the handler gets a NULL state; no draw at LP_INIT; every event draws from the library RNG and
+    its outputs depend on the draw): the only rollbackable state of such an LP is its generator, which lives in rollbackable memory
+    and is brought to the rollback point by the restore + coast forward. No Lean twin: judged by the implementation-side ledger
+    (state digest = generator words recorded when a history position is first reached vs. after every rollback to it)."""
+    import concurrent.futures
+    if not build(ctx):
+        return None
+    rnd = random.Random(ctx.seed * 5501 + 9 + salt)
+    n = n_quick if ctx.tier == "quick" else n_thorough
+    cfgs = []
+    for i in range(n):
+        c = gen_configs(ctx, 1)[0]
+        c.update({"seed": rnd.randrange(1, 1 << 30), "mseed": rnd.randrange(1, 1 << 30), "nostate": 1, "tterm": rnd.choice([100, 200, 400]),
+                  "lps": rnd.choice([2, 3, 4, 6, 8]), "types": rnd.choice([2, 3, 4]), "threads": rnd.choice([2, 3, 4]),
+                  "ckpt": rnd.choice([2, 3, 7, 0, 0]), "period": rnd.choice([0, 10, 1000]), "burst": rnd.choice([5, 20, 60, 200]),
+                  "batch": rnd.choice([0, 4, 16]), "budget": 3000000})
+        c.pop("skew", None)
+        c["t0"] = 0
+        cfgs.append(c)
+    agg = Agg()
+    with concurrent.futures.ThreadPoolExecutor(max_workers=jobs) as ex:
+        for r in ex.map(lambda ic: run_one(ctx, "par", ic[1], "ns%d" % ic[0], model=False), enumerate(cfgs)):
+            agg.add(r)
+    bad = [r for r in [] ]
+    if agg.tot.get("s_rb_mismatch", 0):
+        ctx.violation("rng-or-state-not-replayed-after-rollback", {"count": agg.tot["s_rb_mismatch"], "model": "stateless (generator only)",
+                      "note": "generator words after a rollback differ from those recorded when that history position was first reached"}, True)
+    for r in agg.crashes[:2]:
+        ctx.violation("runtime-crash", {"cfg": r["cfg"], "output": r["out"][-500:]}, True)
+    for r in agg.hang_other[:2]:
+        ctx.violation("hang", {"cfg": r["cfg"], "points": r["stats"].get("points")}, True)
+    ctx.coverage["stateless_models"] = {"runs": agg.runs, "rollbacks_checked": agg.tot.get("s_rb_checked", 0), "forward_steps": agg.tot.get("fwd", 0),
+                                        "outcomes": agg.outcomes}
+    return agg
